@@ -2,6 +2,7 @@ package mon
 
 import (
 	"fmt"
+	"math"
 	"math/rand"
 	"reflect"
 	"strings"
@@ -139,6 +140,27 @@ func runC22(r *lib.Run) {
 				}
 			}
 			rewrites["duplicated-updates"] = &gpb.SetRequest{Prefix: a.Prefix, Update: dup}
+			// the same non-negative number sent as int_val instead of uint_val (gNMI lets a client use
+			// either for an unsigned leaf; ygot decodes both)
+			var iv []*gpb.Update
+			nconv := 0
+			conv := func(tv *gpb.TypedValue) {
+				if u, ok := tv.GetValue().(*gpb.TypedValue_UintVal); ok && u.UintVal <= math.MaxInt64 {
+					tv.Value = &gpb.TypedValue_IntVal{IntVal: int64(u.UintVal)}
+					nconv++
+				}
+			}
+			for _, u := range ups {
+				c := proto.Clone(u).(*gpb.Update)
+				conv(c.Val)
+				for _, e := range c.Val.GetLeaflistVal().GetElement() {
+					conv(e)
+				}
+				iv = append(iv, c)
+			}
+			if nconv > 0 {
+				rewrites["int-val-for-uint-val"] = &gpb.SetRequest{Prefix: a.Prefix, Update: iv}
+			}
 			for name, b := range rewrites {
 				r.Hit("rewrite:" + name)
 				var dab, dba gnmidiff.SetRequestIntentDiff
